@@ -10,6 +10,8 @@ API over hand-made *regions* x objective directions x vtype strings x front ends
     E  all vtypes (C/B/I, mixed strings), binaries without / with user bounds [0,1], <=0, [-1,3]
     F  unbounded directions, infeasible rows, the empty row 0*x <= -1 and 0*x == 1
     G  SOCP: norm, sumsqr, square, rsocone rows (quadratic section of the file), also mixed-integer
+    G2 SOCP with two or three cones of different dimension (3/4/5 entries) in both orders, primal and dual formulas,
+       front ends ro / socp / dro
     H  exponential-cone programs (show() only: the LP format has no exp cone)
 Every region is solved in several objective directions, so each row / bound is active in at least one case.
 
@@ -133,6 +135,23 @@ def _regions(pal, thorough):
         items = [cone, ['row', [[0.0, 1.0, 1.0]], '>=', [1.5 + d], 'mat'], ['bnd', 'L', [1, 3], -2.0, 'B'],
                  ['bnd', 'U', [1, 3], 2.0, 'B'], ['bnd', 'U', [0, 1], 9.0, 'B']]
         R.append(('G:' + cname, 3, ['C', 'CIC', 'CCB'], items, gobj, ['ro', 'socp'] if cname in ('norm', 'sumsqr') else ['ro'], 'SOCP'))
+    # G2: two or more cones of DIFFERENT dimension, both orders (QC rows of show() / quadratic section of the file)
+    A3 = [[0.0, s, 0.0], [0.0, 0.0, 1.0], [0.0, 1.0, 1.0]]
+    z3 = [0.0, 0.0, 0.0]
+    small = ['soc', 'norm', Es, [0.0, 0.0], e0, 0.0]                      # ||(s x1, x2)|| <= x0          (3 entries)
+    small_c = ['soc', 'norm', Es, [0.0, 0.0], z3, 3.0 + d]                # ||(s x1, x2)|| <= const       (3 entries)
+    large = ['soc', 'norm', A3, [0.0, 0.0, 0.5], [2.0, 0.0, 0.0], 1.0]    # ||A3 x + b|| <= 2 x0 + 1      (4 entries)
+    large_c = ['soc', 'norm', A3, [0.0, 0.0, 0.0], z3, 6.0]               # ||A3 x|| <= const            (4 entries)
+    sq = ['soc', 'square', Es, [0.0, 0.0], [e0, e0], [0.0, 0.0]]          # two cones of 3 entries
+    ssq = ['soc', 'sumsqr', A3, [0.0, 0.0, 0.0], [1.0, 0.0, 0.0], 2.0]    # one cone of 5 entries
+    rest = [['row', [[0.0, 1.0, 1.0]], '>=', [1.5 + d], 'mat'], ['bnd', 'L', [1, 3], -2.0, 'B'],
+            ['bnd', 'U', [1, 3], 2.0, 'B'], ['bnd', 'U', [0, 1], 9.0, 'B']]
+    for nm, cs in (('norm3,norm4', [small, large]), ('norm4,norm3', [large, small]),
+                   ('const3,const4', [small_c, large_c, small]), ('const4,const3', [large_c, small_c, small]),
+                   ('norm4,square', [large, sq]), ('square,norm4', [sq, large]),
+                   ('sumsqr5,norm3', [ssq, small]), ('norm3,sumsqr5', [small, ssq]),
+                   ('norm3,sumsqr5,norm4', [small, ssq, large])):
+        R.append(('G2:' + nm, 3, ['C', 'CIC'], cs + rest, gobj, ['ro', 'socp', 'dro'], 'SOCP'))
     R.append(('G:infeasible', 3, ['C'], [cones['norm'], ['row', [[0.0, 1.0, 1.0]], '>=', [1.5], 'mat'],
                                          ['bnd', 'U', [0, 1], -0.5, 'B']], gobj[:1], ['ro'], 'SOCP'))
     # H: exponential cones (table oracle only)
@@ -161,6 +180,8 @@ def gen_cases(tier, seed):
                             tag = '%s|%s|vt=%s|%s' % (fam, name, vt, fe)
                             forms = ['primal']
                             if fam == 'LP' and vt == 'C' and fe == 'ro' and name in ('A', 'A2', 'B', 'C', 'D', 'F:unb', 'F:contra'):
+                                forms.append('dual')
+                            if name.startswith('G2:') and vt == 'C':
                                 forms.append('dual')
                             for form in forms:
                                 if fam != 'EXP':
